@@ -23,6 +23,7 @@ import (
 func TestVerifC14Concurrent(t *testing.T) {
 	rep := verifkit.NewReport("C14", "c14-concurrent-paths")
 	defer rep.Finish(t)
+	defer vRetainedCheck(rep, "C14")
 	rep.Rule = "per round one sender and one receiver (key window W, reference window R); 2-3 goroutines released together deliver different messages of the sender, each by the log path (OpenEnvelopePayload + UpdateOutOfStoreGroupReferences, as MessageStore.processMessage does) " +
 		"or by the push path (OpenOutOfStoreMessage); a rendezvous in the datastore wrapper holds whoever has just read the recorded window bounds until another goroutine has read them too (or 30 ms passed: with the accesses serialised by the store the second reader cannot arrive), " +
 		"plus seeded yields on every access. Oracle at quiescence: EVERY counter inside the recorded bounds resolves to the group through its reference; " +
